@@ -20,7 +20,17 @@ and one tuple of read options O = (columns, categories, index):
               to_pandas(dtypes=D): columns and dtypes of the result are D's.
     handle    the same contract for a handle restored from a pickle, copied with copy.copy, or selected with pf[:]
               (what the handle predicts must survive the round trip together with what the read needs, e.g. timezones).
-Datasets: runtime.ds_read QUICK + TZ (tz-aware datetime columns as data and as written index) + foreign fixtures.
+    derived   ... and for handles DERIVED by selecting row groups of a dataset with >= 2 row groups: pf[0], pf[-1],
+              pf[1:], pf[:1], pf[::2], and pickled / copied / deep-copied selections: count(), info['rows'], the
+              per-row-group num_rows and the rows of to_pandas() of THAT handle agree (a subset of the option tuples).
+    many      datasets made of SEVERAL files sharing a categorical column whose label counts differ (nested label sets
+              7/40/90/300, 90/200, 100/200/300, 200/90: straddling the int8 code width, decimal strings ordered unlike
+              the values), opened via list, directory without _metadata, glob and after merge(): pf.categories announces
+              at least the largest label count the read meets (and not more than the largest count of any file), the
+              dtype prediction says 'category', the read succeeds, has no more labels than announced, and returns every
+              row with its label.
+Datasets: runtime.ds_read QUICK + TZ (tz-aware datetime columns as data and as written index) + foreign fixtures
++ the many-files datasets built here.
 """
 import concurrent.futures as cf
 import itertools
@@ -39,6 +49,9 @@ CONTRACT = ("pf.columns / dtypes / _dtypes(categories) / categories / cats / _ge
 
 DATASETS = list(D.QUICK) + list(D.TZ)
 HANDLES = ["open", "pickle", "copy", "getitem"]
+# handles derived by a row-group selection (datasets with >= 2 row groups)
+DERIVED = ["pick_first", "pick_last", "slice_tail", "slice_head", "slice_step2", "pickle_of_slice", "copy_of_pick",
+           "deepcopy_of_slice"]
 FOREIGN = ["nation.plain.parquet", "nation.impala.parquet", "snappy-nation.impala.parquet", "gzip-nation.impala.parquet",
            "datapage_v2.snappy.parquet", "decimals.parquet", "empty.parquet", "foo.parquet", "metas.parq", "mr_times.parq",
            "test-null.parquet", "test-null-dictionary.parquet", "test-converted-type-null.parquet",
@@ -79,6 +92,22 @@ def make_handle(pf, kind):
         return copy.copy(pf)
     if kind == "getitem":
         return pf[:]
+    if kind == "pick_first":
+        return pf[0]
+    if kind == "pick_last":
+        return pf[-1]
+    if kind == "slice_tail":
+        return pf[1:]
+    if kind == "slice_head":
+        return pf[:1]
+    if kind == "slice_step2":
+        return pf[::2]
+    if kind == "pickle_of_slice":
+        return pickle.loads(pickle.dumps(pf[1:]))
+    if kind == "copy_of_pick":
+        return copy.copy(pf[-1])
+    if kind == "deepcopy_of_slice":
+        return copy.deepcopy(pf[:-1])
     return pf
 
 def check_meta(pf, opts, per_rg=False):
@@ -147,6 +176,11 @@ def check_meta(pf, opts, per_rg=False):
         pc = {c for c in pf.categories if c in out.columns}
         if pc != rcat - set(parts):
             return "pf.categories says %s, read gives %s" % (sorted(pc), sorted(rcat - set(parts)))
+        if isinstance(pf.categories, dict):
+            for c in sorted(pc):
+                ann = pf.categories[c]
+                if isinstance(ann, (int, np.integer)) and len(out[c].cat.categories) > ann:
+                    return "pf.categories announces %d categories for %r, the read column has %d" % (ann, c, len(out[c].cat.categories))
     # ---- partition columns
     for c in parts:
         if c in out.columns:
@@ -170,6 +204,25 @@ def check_meta(pf, opts, per_rg=False):
                 return "row group %d: num_rows=%d, rows read=%d" % (i, rg.num_rows, m)
         if sum(rg.num_rows for rg in pf.row_groups) != n:
             return "sum of num_rows != count()"
+    return None
+
+def check_many(pf, opts, expect, counts):
+    """many-files dataset: check_meta + announced category count + every row with its label.
+    expect = (row ids, labels) of the whole dataset in file order; counts = label count of each file."""
+    msg = check_meta(pf, opts, per_rg=not opts)
+    if msg:
+        return msg
+    ann = pf.categories.get("c") if isinstance(pf.categories, dict) else None
+    if not isinstance(ann, (int, np.integer)) or not (max(counts) <= ann <= max(counts)):
+        return "pf.categories announces %r categories for 'c', the files carry %r labels" % (ann, counts)
+    if opts.get("columns") is not None and not {"rid", "c"} <= set(opts["columns"]):
+        return None
+    out = pf.to_pandas(**opts)
+    rid = [int(v) for v in out["rid"]]
+    lab = [None if v is None or v != v else str(v) for v in out["c"].astype(object)]
+    if len(rid) == len(expect[0]) and (rid != list(expect[0]) or lab != list(expect[1])):
+        k = next(i for i in range(len(rid)) if rid[i] != expect[0][i] or lab[i] != expect[1][i])
+        return "row %d: read (rid=%r, c=%r), the files hold (rid=%r, c=%r)" % (k, rid[k], lab[k], expect[0][k], expect[1][k])
     return None
 
 def check_override_open(fastparquet, path, override, pandas_nulls=True):
@@ -203,7 +256,98 @@ def check_override_read(pf, override):
 _ns = {}
 exec(CHECK_SRC, _ns)
 check_meta, check_override_open, check_override_read = _ns["check_meta"], _ns["check_override_open"], _ns["check_override_read"]
-make_handle = _ns["make_handle"]
+make_handle, check_many = _ns["make_handle"], _ns["check_many"]
+
+# ---- many-files datasets: files sharing a categorical column with DIFFERENT label counts ----------------------
+MANY = {"cats_7_40_90_300": [7, 40, 90, 300], "cats_90_200": [90, 200], "cats_100_200_300": [100, 200, 300],
+        "cats_200_90": [200, 90]}
+MANY_OPENS = ["list", "dir", "glob", "merge"]
+
+
+def many_code(name, mode):
+    """python source (names fastparquet, np, pd, os, D in scope) that writes the files of many-files dataset `name`
+    below D and binds `path` (what ParquetFile is given), `EXPECT` (row ids, labels in file order), `COUNTS`.
+    Label sets are prefixes of one another; a file's rows use its highest code only when no later file has fewer
+    labels (otherwise the known defect 'dictionary of the last row group labels the whole column' would interfere)."""
+    return "\n".join([
+        "COUNTS = %r" % (MANY[name],),
+        "_dir = os.path.join(D, %r)" % (name + "-" + mode),
+        "os.makedirs(_dir)",
+        "_files, _rid, _lab = [], [], []",
+        "for _i, _n in enumerate(COUNTS):",
+        "    _labels = ['L%03d' % _j for _j in range(_n)]",
+        "    _top = min(COUNTS[_i:])        # codes below the smallest count of this and every later file",
+        "    _codes = [(_q * 37 + _i + _top - 1) % _top for _q in range(5)]",
+        "    _df = pd.DataFrame({'rid': np.arange(5, dtype='int64') + 10 * _i,",
+        "                        'c': pd.Categorical.from_codes(_codes, categories=_labels),",
+        "                        'v': np.arange(5) * 0.5 + _i})",
+        "    _fn = os.path.join(_dir, 'f%d.parquet' % _i)",
+        "    fastparquet.write(_fn, _df, row_group_offsets=[0, 3] if _i % 2 else [0])",
+        "    _files.append(_fn)",
+        "    _rid += [int(_v) for _v in _df['rid']]",
+        "    _lab += [_labels[_k] for _k in _codes]",
+        "EXPECT = (_rid, _lab)",
+        "src = None",
+        {"list": "path = list(_files)", "dir": "path = _dir", "glob": "path = os.path.join(_dir, '*.parquet')",
+         "merge": "fastparquet.writer.merge(list(_files))\npath = _dir"}[mode],
+    ])
+
+
+class ManyDS:
+    foreign = False
+    index_kind = "none"
+    index_col = None
+
+    def __init__(self, fp, root, name, mode):
+        env = {"fastparquet": fp, "np": np, "pd": pd, "os": os, "D": root}
+        exec(many_code(name, mode), env)
+        self.name, self.mode = "many:%s:%s" % (name, mode), mode
+        self.path, self.expect, self.counts = env["path"], env["EXPECT"], env["COUNTS"]
+
+    def open(self, fp, **kw):
+        return fp.ParquetFile(self.path, **kw)
+
+
+def run_many(args):
+    root, name, mode, tier = args
+    fp = import_fastparquet()
+    res = []
+    try:
+        ds = ManyDS(fp, root, name, mode)
+    except Exception as e:
+        f = {"ds": "many:%s:%s" % (name, mode), "open": mode, "label_counts": ",".join(map(str, MANY[name])), "handle": "open",
+             "columns": "all", "categories": "None", "index": "None", "pandas_nulls": True, "dtypes": "none"}
+        return [(f, False, "dataset could not be built: %s: %s" % (type(e).__name__, str(e)[:200]), True, ("many", name, mode, ("open", {}, {})))]
+    colopts = [("all", None), ("one", ["c"]), ("pair_permuted", ["c", "rid"]), ("without_categorical", ["rid", "v"])]
+    catopts = [("None", None), ("list", ["c"]), ("empty_list", [])]
+    for pn in (True, False):
+        for (cn, c), (kn, k), handle in itertools.product(colopts, catopts, HANDLES + DERIVED):
+            if k and c is not None and "c" not in c:
+                continue
+            if handle in DERIVED and (cn, kn) not in (("all", "None"), ("one", "None"), ("all", "list")):
+                continue
+            if not pn and (handle != "open" or kn != "None"):
+                continue
+            opts = {}
+            if c is not None:
+                opts["columns"] = list(c)
+            if k is not None:
+                opts["categories"] = k
+            f = {"ds": ds.name, "scheme": "many", "pandas_md": True, "written_index": "none", "handle": handle,
+                 "override_has_tz": False, "columns": cn, "categories": kn, "index": "None", "pandas_nulls": pn,
+                 "dtypes": "none", "reads_stat_nullable_int": False, "open": mode,
+                 "label_counts": ",".join(map(str, ds.counts))}
+            try:
+                base = ds.open(fp, pandas_nulls=pn)
+                pf = make_handle(base, handle)
+                if handle in DERIVED:
+                    what = check_meta(pf, opts, per_rg=not opts)     # the selection's own counts / dtypes / categories
+                else:
+                    what = check_many(pf, opts, ds.expect, ds.counts)
+            except Exception as e:
+                what = "%s: %s" % (type(e).__name__, str(e)[:200])
+            res.append((f, what is None, what, True, ("many", name, mode, (handle, {"pandas_nulls": pn}, opts))))
+    return res
 
 
 def option_tuples(fp, ds, tier):
@@ -300,7 +444,14 @@ def run_dataset(args):
             "written_index": ds.index_kind if not ds.foreign else "file"}
     first = {}
     masked = {c for c, v in pf0.dtypes.items() if isinstance(v, pd.core.arrays.masked.BaseMaskedDtype)}
-    for (feats, okw, opts), handle in itertools.product(option_tuples(fp, ds, tier), HANDLES):
+    nrg = len(pf0.row_groups)
+    tuples = option_tuples(fp, ds, tier)
+    # derived (row-group selected) handles: the default tuple, every 7th tuple (thorough: every 2nd)
+    step = 7 if tier == "quick" else 2
+    work = [(t, h) for t in tuples for h in HANDLES]
+    if nrg >= 2:
+        work += [(t, h) for k, t in enumerate(tuples) for j, h in enumerate(DERIVED) if not t[2] or (k + j) % step == 0]
+    for (feats, okw, opts), handle in work:
         f = dict(base, handle=handle, override_has_tz=False, **feats)
         # columns whose dtype the library decides from the null statistics (no pandas metadata): nullable under
         # pandas_nulls=True, float64 under pandas_nulls=False
@@ -331,7 +482,21 @@ def run_dataset(args):
     return res
 
 
+def _snippet_many(name, mode, hk):
+    handle, okw, opts = hk
+    body = CHECK_SRC + '''
+pf = make_handle(fastparquet.ParquetFile(path, **%r), %r)
+msg = check_meta(pf, %r, per_rg=True) if %r else check_many(pf, %r, EXPECT, COUNTS)
+print("difference:", msg)
+VIOLATED = msg is not None
+''' % (okw, handle, opts, handle in DERIVED, opts)
+    return (D._SNIP_HEAD % {"source_frame": "", "build": D._indent(many_code(name, mode))}
+            + D._indent(body, 8) + D._SNIP_TAIL)
+
+
 def _snippet(kind, dsname, a, b):
+    if kind == "many":
+        return _snippet_many(dsname, a, b)
     if kind == "meta":
         body = CHECK_SRC + '''
 pf = make_handle(fastparquet.ParquetFile(path, **%r), %r)
@@ -366,8 +531,13 @@ def run_bounded(ctx):
         "hive partitioned v2) and add index {first, second tz-aware column} - predicted dtypes are compared INCLUDING the "
         "timezone with the dtypes of the columns and of the index of the frame read; + "
         "dtype overrides {int64->float64, float64->float32} given to ParquetFile(dtypes=) and to "
-        "to_pandas(dtypes=); per-row-group counts once per handle. distinct = (dataset, option tuple); nontrivial "
-        "= dataset has rows." % (DATASETS, FOREIGN)))
+        "to_pandas(dtypes=); per-row-group counts once per handle; + DERIVED handles %s (row-group selections of every "
+        "dataset with >= 2 row groups, pickled / copied selections) x the default option tuple and every 7th tuple "
+        "(thorough: every 2nd): the selection's own count() / info / num_rows / dtypes / categories vs its own read; + "
+        "MANY-FILES datasets %s (label counts of a shared categorical column per file, nested label sets, 5 rows per "
+        "file, every second file in two row groups) x opened via %s x columns {all, c, (c,rid), without c} x categories "
+        "{None, [c], []} x all handles: announced number of categories, prediction, labels of every row. distinct = "
+        "(dataset, option tuple); nontrivial = dataset has rows." % (DATASETS, FOREIGN, DERIVED, MANY, MANY_OPENS)))
     with tmpdir("verif-c17-") as root:
         D.build_all(fp, root, DATASETS)
         tasks = [(root, n, ctx.tier) for n in DATASETS]
@@ -375,8 +545,9 @@ def run_bounded(ctx):
             p = os.path.join(D.TEST_DATA, f)
             if os.path.exists(p) and not (os.path.isfile(p) and os.path.getsize(p) == 0):
                 tasks.append((root, "foreign:" + f, ctx.tier))
+        many_tasks = [(root, n, m, ctx.tier) for n in MANY for m in MANY_OPENS]
         with cf.ProcessPoolExecutor(max_workers=min(16, os.cpu_count() or 4)) as ex:
-            results = list(ex.map(run_dataset, tasks))
+            results = list(ex.map(run_dataset, tasks)) + list(ex.map(run_many, many_tasks))
     for res in results:
         for feats, ok, what, nontrivial, rp in res:
             with Case(ctx, G, feats, snippet=None if ok else _snippet(*rp), nontrivial=nontrivial, contract=CONTRACT) as c:
